@@ -2,6 +2,7 @@
 mod backends;
 mod c05;
 mod c07;
+mod c08;
 mod c09;
 mod c10;
 mod c12;
@@ -47,6 +48,7 @@ fn main() {
     match args.id.as_str() {
         "C05" | "C06" => c05::run(&mut check),
         "C07" => c07::run(&mut check),
+        "C08" => c08::run_check(&mut check),
         "C09" => c09::run(&mut check),
         "C10" | "C11" => c10::run(&mut check),
         "C12" => c12::run(&mut check),
